@@ -8,7 +8,7 @@ copied and aliasing between Python-level containers is preserved for free.
 import ast
 import z3
 
-from .values import (V, NONE, Unsupported, Infeasible, PathEnd, PyRaise, ExcVal, Obj, Seq,
+from .values import (SDict, V, NONE, Unsupported, Infeasible, PathEnd, PyRaise, ExcVal, Obj, Seq,
                      SymMap, SliceVal, RangeVal, Cx, Opaque, is_z3, is_int, is_real, is_bool,
                      is_v, is_num, to_z3, to_real, to_int, concrete_int, concrete_bool, ite,
                      veq, uf, fresh_bool, fresh_int, fresh_v, fresh_real, real_const, to_cx,
@@ -238,8 +238,14 @@ class Interp:
         self.obligations.append({'name': name, 'goal': to_z3(goal), 'pc': list(self.pc),
                                  'info': info or {}, 'flags': set(self.flags)})
         # continue the path as if it held (avoid cascades) — unless it is plainly false
-        if concrete_bool(to_z3(goal)) is not False:
-            self.add_pc(goal)
+        g = to_z3(goal)
+        if concrete_bool(g) is not False:
+            try:
+                ok = self.feasible(g)
+            except Exception:
+                ok = True
+            if ok:          # a goal that contradicts the path condition is refuted: do not assume it
+                self.add_pc(g)
 
     # ------------------------------------------------------------------ raising
     def raise_(self, typ, *args):
@@ -776,7 +782,7 @@ class Interp:
         return list(self.ex_Tuple(node, frame))
 
     def ex_Dict(self, node, frame):
-        d = {}
+        d = SDict()
         for k, v in zip(node.keys, node.values):
             if k is None:
                 raise Unsupported('dict unpacking')
@@ -817,6 +823,10 @@ class Interp:
             t = self.truth(v)
             return (not t) if isinstance(t, bool) else z3.Not(t)
         if isinstance(node.op, ast.USub):
+            if hasattr(v, 'pv_binop'):
+                return v.pv_binop(self, 'mul', -1)
+            if isinstance(v, Seq):
+                return Seq(v.length, (lambda s: lambda i: self.binop(ast.Sub(), 0, s.fn(i)))(v.copy()), v.kind)
             if isinstance(v, Cx):
                 return Cx(-v.re, -v.im)
             if isinstance(v, (int,)) and not isinstance(v, bool):
